@@ -423,6 +423,7 @@ const (
 	IssuerURL     = "https://as.sim"
 	VerifyURL     = "https://as.sim/device"
 	DefaultSecret = "sim-global-secret-0000000000000000000000"
+	UnsetSecret   = "-" // Knobs.Secret value meaning "no global secret configured" ("" means: the default one)
 )
 
 // Documented defaults (config_default.go doc comments / RFCs), used by the ledger when a knob is unset.
@@ -506,6 +507,9 @@ func (k *Knobs) BuildConfig(net *SimNet) *fosite.Config {
 	sec := k.Secret
 	if sec == "" {
 		sec = DefaultSecret
+	}
+	if sec == UnsetSecret {
+		sec = "" // the operator left the global secret unset (only rotated secrets, if any, remain)
 	}
 	cfg := &fosite.Config{
 		GlobalSecret:                         []byte(sec),
